@@ -156,7 +156,7 @@ MANIFEST_TEXT["C07"] = dict(
     technique="property-based testing (rapidcheck): round-trip + differential (source equivalence) + reference model, bounded exhaustive enumeration for the splitter, under ASan/UBSan")
 
 PROPS["C08"] = dict(
-    units=[dict(harness="argh", mode="groups", quick=dict(cases=30000), thorough=dict(cases=100000, shards=16))],
+    units=[dict(harness="argh", mode="groups", quick=dict(cases=45000), thorough=dict(cases=100000, shards=16))],
     rule="rule-rich configuration (as C03) x partition of its arguments over 1..4 named member handlers of the Groups singleton "
          "(arguments linked by a constraint stay in one member) x a rule-obeying line or a line with one rule-breaking mutation "
          "(22 kinds, as C02), spelled with the full spelling function. Oracle (differential): Groups::evalArguments and "
